@@ -1,4 +1,5 @@
 """C10 — morphometric features equal their textbook definitions (spec/Morph.tla)."""
+from harness import lib
 import random
 from harness.checks import morph
 
@@ -10,7 +11,7 @@ RULE = ("trees = every parents-first topology up to the bound (plus numberings w
 
 
 def execute(c):
-    rng = random.Random(c["cid"])
+    rng = random.Random(lib.vid(c))
     if c["kind"] == "pop":
         return morph.observe_pop(c, rng)
     return morph.observe(c, c["motion"] % 2, rng)
